@@ -232,6 +232,14 @@ func checkC06(c *Ctx) error {
 			}
 			jobs = append(jobs, &m)
 		}
+		// many dangling references at once (12-30): every one of them is reported
+		{
+			m := base.Clone()
+			for j := 0; j < 12+r.Intn(19); j++ {
+				gen.Inject(r, &m, []string{"missing-param", "missing-service", "missing-mixed"}[r.Intn(3)], j)
+			}
+			jobs = append(jobs, &m)
+		}
 	}
 	c.Set("configurations", len(jobs))
 	accepted := make([]bool, len(jobs))
